@@ -22,8 +22,13 @@
 //!                             rename has not been followed by a sync_dir of
 //!                             the source or destination directory
 //! * `rename-unsynced-create-cross-dir` — rename into another directory of a
-//!                             file whose creation has not been followed by
-//!                             a sync_dir of its parent
+//!                             file whose directory entry (creation or an
+//!                             earlier rename) has not been followed by a
+//!                             sync_dir of its parent
+//! * `rename-onto-unsynced-entry` — rename onto an existing file whose own
+//!                             directory entry (creation or an earlier
+//!                             rename) has not been followed by a sync_dir of
+//!                             its parent
 //! * `recreate`              — creating a file (or renaming onto a name) where
 //!                             a regular file existed earlier in the history
 //!                             and whose removal / pending data has not been
@@ -158,6 +163,11 @@ impl Tracker {
                 if is_file(t, b) && self.dirty.contains(b) {
                     return Some("rename-pending-data");
                 }
+                if is_file(t, b)
+                    && (self.entry_unsynced.contains(b) || self.renamed.contains_key(b))
+                {
+                    return Some("rename-onto-unsynced-entry");
+                }
                 if self.renamed.contains_key(a) {
                     return Some("write-after-rename");
                 }
@@ -203,11 +213,9 @@ impl Tracker {
                             self.dirty.remove(b);
                             self.renamed.remove(b);
                         }
-                        if self.entry_unsynced.remove(a) {
-                            self.entry_unsynced.insert(b.clone());
-                        } else {
-                            self.entry_unsynced.remove(b);
-                        }
+                        // the destination entry is new until its directory is synced
+                        self.entry_unsynced.remove(a);
+                        self.entry_unsynced.insert(b.clone());
                         let was_dirty = self.dirty.remove(a);
                         self.renamed.remove(a);
                         self.dead.insert(a.clone(), was_dirty);
